@@ -293,7 +293,8 @@ func (fb *functionBuilder) emitDiv(ky bool, x, y, z int8, kind reflect.Kind, pos
 // emitField appends a new "Field" instruction to the function body.
 //
 //	c = a.field
-func (fb *functionBuilder) emitField(a, field, c int8, dstKind reflect.Kind) {
+func (fb *functionBuilder) emitField(a, field, c int8, dstKind reflect.Kind, pos *ast.Position) {
+	fb.addPosAndPath(pos)
 	fb.addOperandKinds(0, 0, dstKind)
 	fb.fn.Body = append(fb.fn.Body, runtime.Instruction{Op: runtime.OpField, A: a, B: field, C: c})
 }
